@@ -27,4 +27,8 @@ SCENARIOS = [
     sc("VerifC01_Task_CU", "C01 task, conditional + unconditional", "task with a conditional and an unconditional outgoing flow"),
     sc("VerifC01e_Seq", "C01.e start -> task -> end (whole instance)", "real StartAll, task answered once, end reached",
        eo=["the instance reaches exactly the end events the token game reaches"], tiers=("thorough",), K=160),
+    dict(name="C01.f conditions see the instance's current data", entry="VerifC01f_ConditionSeesCurrentData", K=30, reach=["built"], sequential=True,
+         overrides={k: v for k, v in STD.items() if "executeSequenceFlow" not in k} | {"github.com/olive-io/bpmn/v2/pkg/expression.GetEngine": "verifGetEngine"},
+         expect_obligations=["a condition is evaluated against the instance's data", "a condition evaluated after another token changed a variable sees the new value"],
+         bounds="real flow.executeSequenceFlow on one token's flow object: condition 1, a variable written through the shared locator (as another token's task result is), condition 2 reading it, condition 1 again; 2 symbolic booleans; expression engine stand-in"),
 ]
